@@ -20,6 +20,10 @@ func protoOrTransport(rel string) bool {
 }
 
 func runC10(p *Prog, r *Report) {
+	rearmStopsPrevious(p, r, "C10.25/rearm-stops-previous", func(rel string) bool {
+		return strings.HasPrefix(rel, "protocol/") || strings.HasPrefix(rel, "transport") || rel == "internal/core"
+	})
+	r.Floor("C10.25/rearm-stops-previous", "timer_armings.C10.25/rearm-stops-previous", 5)
 	channelsNotShared(p, r, "C10.21/channels-not-shared", func(rel string) bool {
 		return strings.HasPrefix(rel, "protocol/") || strings.HasPrefix(rel, "transport") || rel == "internal/core"
 	})
